@@ -588,6 +588,12 @@ def contains(ip, container, item):
             hook = ctx.cfg.hooks.get('list_contains')
             if hook is not None:
                 return hook(ip, container, item)
+            item_n = norm(ip, item)
+            if kind_of(ip, item_n) == 'str' or (isinstance(item_n, S) and ctx.must(is_str(item_n.t))):
+                # membership of a string in a list: some element is that string
+                ref = z3.simplify(V.lref(container.t))
+                i = z3.Int('i!in')
+                return z3.Exists([i], z3.And(i >= 0, i < ctx.heap.llen(ref), ctx.heap.lget(ref, i) == VStr(str_term(ip, item_n))))
             raise OutOfReach('in on a symbolic list')
         if k == 'str':
             return z3.Contains(V.s(container.t), str_term(ip, item))
@@ -943,7 +949,7 @@ def iteration(ip, it):
             start = it.f.get('start', 0)
             if inner[0] == 'concrete':
                 return ('concrete', [Obj('tuple', items=[C(i + start), x]) for i, x in enumerate(inner[1])])
-            return ('symbolic', inner[1], lambda h, kk: Obj('tuple', items=[norm(ip, I(kk + start)), inner[2](h, kk)]))
+            return ('symbolic', inner[1], lambda h, kk: Obj('tuple', items=[norm(ip, I(kk + start)), inner[2](h, kk)])) + tuple(inner[3:])
         if k == 'dictkeys' or k == 'dictitems' or k == 'dictvalues':
             d = it.f['dict']
             if isinstance(d, C):
@@ -984,7 +990,7 @@ def iteration(ip, it):
         k = resolve_kind(ip, it, ('list', 'dict', 'str'))
         if k == 'list':
             ref = z3.simplify(V.lref(it.t))
-            return ('symbolic', lambda h: h.llen(ref), lambda h, kk: norm(ip, ctx.loaded(h.lget(ref, kk))))
+            return ('symbolic', lambda h: h.llen(ref), lambda h, kk: norm(ip, ctx.loaded(h.lget(ref, kk))), {'list_ref': ref})
         if k == 'dict':
             return iteration(ip, Obj('dictkeys', dict=it))
         if k == 'str':
